@@ -1,2 +1,2 @@
 #include "c01_exec.h"
-namespace c01 { void run_fastp(vh::Case& c, const stc::History& h) { exec_history<Gudhi::Simplex_tree_options_fast_persistence>(c, h, "fastp"); } }
+namespace c01 { void run_fastp(vh::Case& c, const stc::History& h, int sample) { exec_history<Gudhi::Simplex_tree_options_fast_persistence>(c, h, "fastp", sample); } }
